@@ -561,7 +561,13 @@ pub fn check(entry: &Entry, bytes: &[u8], alloc_fail_nth: usize) -> Result<CaseS
 /// message limits an implementation may have (256, 1 KiB, 2 KiB, 4 KiB, 64 KiB).
 fn threshold_len(rng: &mut Rng) -> usize {
     let t = *rng.pick(&[63usize, 64, 127, 128, 255, 256, 512, 1000, 1024, 2045, 2048, 4096, 8192, 16383, 16384, 65535, 65536]);
-    (t + rng.usize_below(9)).saturating_sub(4)
+    let len = (t + rng.usize_below(9)).saturating_sub(4);
+    // under the interpreter a 64 KiB string costs minutes: the size-prefix boundary at 64 stays, the rest is capped
+    if cfg!(miri) {
+        len.min(600)
+    } else {
+        len
+    }
 }
 
 fn random_string(rng: &mut Rng, max: usize) -> String {
